@@ -126,7 +126,7 @@ type Evaluator struct {
 	busyField map[string]bool
 	busyEdge  map[edgeKey]bool // branch conditions under evaluation (a condition that depends on itself through a cell is left undecided)
 	MaxDepth  int
-	foreign   int // nested activations of functions of other packages
+	foreign   int                   // nested activations of functions of other packages
 	active    map[*ssa.Function]int // activations being summarised (recursion bound)
 }
 
